@@ -1,7 +1,731 @@
-//! C34 — not implemented yet.
-use vcore::Ctx;
+//! C34 — reusing converted modules across tests is invisible.
+//!
+//! (a) in process, the API `cmd_test.rs` uses (`build_ir_cached` with one
+//!     `ProtoModuleCache`, no `dut_reuse` — DESIGN.md §6a):
+//!     * `api-tops`: a generated library (leaves, DUTs with an array of
+//!       state, wrappers; `mgen`) and 2–5 plain tops instantiating the same
+//!       DUTs with different parameter overrides and instance layouts; a
+//!       history = sequence of (top, stimulus) in which tops repeat; every
+//!       element is built through the shared cache, run, dropped — and
+//!       compared with the same element built by `build_ir` from scratch.
+//!     * `api-designs`: a `vdesign` design (every statement kind the
+//!       generator knows) instantiated 2–4 times from one cache entry with
+//!       different stimuli, against from-scratch conversions.
+//! (b) `cli`: generated projects of 3–8 native `#[test]` benches over the
+//!     same library, printing per-cycle traces; all tests in ONE `veryl test`
+//!     process restricted to one CPU (`taskset` ⇒ one worker) with DUT reuse
+//!     (default), in alphabetical and in a forced dispatch order, versus the
+//!     same with `VERYL_DUT_REUSE=0` and (1/3 of the projects) each test alone.
+//!     Oracle: equal (status, message, output) per test.
+//!
+//! A difference is re-run before it is reported (the CLI runs are repeated;
+//! the in-process element is rebuilt).
 
-pub fn run(_ctx: &Ctx) {
-    println!("INCONCLUSIVE property=C34: check not implemented");
-    std::process::exit(2);
+use crate::common::*;
+use crate::mgen::*;
+use num_bigint::BigUint;
+use std::collections::{BTreeMap, BTreeSet};
+use std::path::PathBuf;
+use std::time::Duration;
+use vcore::util::{Scratch, repo_bin, run_cmd, write_file};
+use vcore::{CaseCfg, Ctx, Draw, Outcome, Value, hash_str, json};
+use vdesign::{Analyzed, GenCfg, PortSpec, StimStep, Stimulus, gen_design, gen_stimulus, print_design};
+use veryl_simulator::ir::{ProtoModuleCache, build_ir, build_ir_cached};
+use veryl_simulator::{Config, Simulator};
+
+// ------------------------------------------------------------- in process
+
+fn api_configs() -> Vec<(&'static str, Config)> {
+    vec![
+        ("jit", Config { use_jit: true, ..Default::default() }),
+        ("interp", Config::default()),
+        ("jit+noffopt", Config { use_jit: true, disable_ff_opt: true, ..Default::default() }),
+        ("jit+4st", Config { use_jit: true, use_4state: true, ..Default::default() }),
+        ("interp+4st", Config { use_4state: true, ..Default::default() }),
+        // the synchronous C backend: one `cc` run per conversion
+        ("cc", Config { use_jit: true, aot_c: true, aot_c_event: true, ..Default::default() }),
+    ]
+}
+
+fn pick_config(d: &mut Draw, cc_ok: bool) -> (&'static str, Config) {
+    let all = api_configs();
+    let i = d.weighted(&[6, 3, 2, 2, 1, if cc_ok { 1 } else { 0 }]);
+    all[i].clone()
+}
+
+fn run_ir(ir: veryl_simulator::ir::Ir, stim: &Stimulus) -> Result<Observed, String> {
+    match std::panic::catch_unwind(std::panic::AssertUnwindSafe(|| {
+        let mut sim = Simulator::new(ir, None);
+        drive(&mut sim, stim, false, false, &|| 0).map(|r| r.obs)
+    })) {
+        Ok(r) => r,
+        Err(e) => Err(format!("panic: {}", panic_text(e))),
+    }
+}
+
+fn build_fresh(a: &Analyzed, top: &str, cfg: &Config) -> Result<veryl_simulator::ir::Ir, String> {
+    match std::panic::catch_unwind(std::panic::AssertUnwindSafe(|| build_ir(&a.ir, top.into(), cfg).map_err(|e| format!("build_ir: {e}")))) {
+        Ok(r) => r,
+        Err(e) => Err(format!("panic: {}", panic_text(e))),
+    }
+}
+
+fn build_cached(a: &Analyzed, top: &str, cfg: &Config, cache: &mut ProtoModuleCache) -> Result<veryl_simulator::ir::Ir, String> {
+    match std::panic::catch_unwind(std::panic::AssertUnwindSafe(|| build_ir_cached(&a.ir, top.into(), cfg, cache).map_err(|e| format!("build_ir_cached: {e}")))) {
+        Ok(r) => r,
+        Err(e) => Err(format!("panic: {}", panic_text(e))),
+    }
+}
+
+fn top_stimulus(d: &mut Draw, t: &TopSpec) -> Stimulus {
+    let mut ins: Vec<PortSpec> = t.inputs().into_iter().map(|(n, w)| PortSpec { name: n, width: w as usize }).collect();
+    let mut outs: Vec<PortSpec> = t.outputs().into_iter().map(|(n, w)| PortSpec { name: n, width: w as usize }).collect();
+    if t.pad.is_some() {
+        outs.push(PortSpec { name: "o_pad".into(), width: 1 });
+    }
+    let n = 3 + d.below_usize(8);
+    let mut steps = vec![];
+    let resets = 1 + d.below_usize(2);
+    for i in 0..(resets + n) {
+        let values = ins
+            .iter()
+            .map(|p| if p.name == "en" { BigUint::from(!d.chance(1, 5) as u8) } else { vdesign::gen_value(d, p.width as u32) })
+            .collect();
+        steps.push(StimStep {
+            reset: i < resets || d.chance(1, 15),
+            values,
+        });
+    }
+    let _ = &mut ins;
+    let _ = &mut outs;
+    Stimulus {
+        clock: Some("clk".into()),
+        reset: Some("rst".into()),
+        inputs: ins,
+        outputs: outs,
+        steps,
+    }
+}
+
+fn norm_err(e: &str) -> String {
+    e.lines().next().unwrap_or("").chars().filter(|c| !c.is_ascii_digit()).take(70).collect()
+}
+
+/// One history over `tops` (names) of an analysed text: `seq[i]` = (top index, stimulus).
+fn run_history(a: &Analyzed, text: &str, tops: &[String], seq: &[(usize, Stimulus)], cfg_name: &str, cfg: &Config, classes: Vec<String>, nontrivial: bool) -> Outcome {
+    let mut cache = ProtoModuleCache::default();
+    let input = |i: usize, extra: Value| {
+        json!({"veryl": text, "config": cfg_name, "tops": tops,
+               "history": seq.iter().map(|(t, s)| json!({"top": tops[*t], "stimulus": stim_json(s)})).collect::<Vec<_>>(),
+               "element": i, "detail": extra})
+    };
+    let mut seen: BTreeSet<usize> = BTreeSet::new();
+    let mut hits = 0;
+    for (i, (ti, stim)) in seq.iter().enumerate() {
+        let top = &tops[*ti];
+        let fresh = build_fresh(a, top, cfg).and_then(|ir| run_ir(ir, stim));
+        let cached = build_cached(a, top, cfg, &mut cache).and_then(|ir| run_ir(ir, stim));
+        let hit = !seen.insert(*ti);
+        if hit {
+            hits += 1;
+        }
+        let what = if hit { "cache-hit" } else { "cache-miss" };
+        match (&fresh, &cached) {
+            (Err(e), Err(_)) if i == 0 && e.starts_with("build_ir") => {
+                return Outcome::skip(format!("not simulatable ({})", norm_err(e)));
+            }
+            (Err(e1), Err(e2)) if norm_err(e1).replace("build_ir_cached", "build_ir") == norm_err(e2).replace("build_ir_cached", "build_ir") => continue,
+            (Ok(f), Ok(c)) => {
+                if let Some(diff) = first_diff(stim, f, c, "from-scratch", "through-cache") {
+                    // soundness: the difference must show again on a second
+                    // from-scratch conversion and a second cached instance
+                    let f2 = build_fresh(a, top, cfg).and_then(|ir| run_ir(ir, stim));
+                    let c2 = build_cached(a, top, cfg, &mut cache).and_then(|ir| run_ir(ir, stim));
+                    let stable = matches!((&f2, &c2), (Ok(f2), Ok(c2)) if f2 == f && first_diff(stim, f2, c2, "a", "b").is_some());
+                    if !stable {
+                        return Outcome::fail(
+                            format!("unstable-difference/{what}"),
+                            format!("element {i} ({top}, {what}, {cfg_name}) differed once but not on re-run: {diff}\n{text}"),
+                            input(i, json!({"diff": diff})),
+                        );
+                    }
+                    return Outcome::fail(
+                        format!("cached-instance-differs/{what}/{}", cfg_name.split('+').next().unwrap_or(cfg_name)),
+                        format!("element {i} of the history (top {top}, {what}, config {cfg_name}): {diff}\n{text}"),
+                        input(i, json!({"diff": diff})),
+                    );
+                }
+            }
+            (f, c) => {
+                let fe = f.as_ref().err().cloned().unwrap_or_else(|| "ok".into());
+                let ce = c.as_ref().err().cloned().unwrap_or_else(|| "ok".into());
+                return Outcome::fail(
+                    format!("cached-build-verdict-differs/{what}:{}|{}", norm_err(&fe), norm_err(&ce)),
+                    format!("element {i} ({top}, {what}, {cfg_name}): from scratch: {fe}; through the cache: {ce}\n{text}"),
+                    input(i, json!({"fresh": fe, "cached": ce})),
+                );
+            }
+        }
+    }
+    let mut classes = classes;
+    classes.push(format!("config:{cfg_name}"));
+    classes.push(format!("cache-hits:{}", hits.min(4)));
+    let hist: Vec<&str> = seq.iter().map(|(t, _)| tops[*t].as_str()).collect();
+    Outcome::pass(hash_str(&format!("{text}{hist:?}{cfg_name}")), nontrivial && hits > 0, classes, format!("{text}// history: {hist:?} config {cfg_name}"))
+}
+
+fn api_tops_case(d: &mut Draw, cc_ok: bool) -> Outcome {
+    let lib = gen_library(d);
+    let pool = gen_param_pool(d, &lib);
+    let n_tops = 2 + d.below_usize(4);
+    let tops: Vec<TopSpec> = (0..n_tops).map(|i| gen_top(d, &lib, &pool, format!("Top{i}"))).collect();
+    let mut text = lib.text.clone();
+    for t in &tops {
+        text.push_str(&print_plain_top(t));
+    }
+    let (cfg_name, cfg) = pick_config(d, cc_ok);
+    let len = if cfg_name == "cc" { 3 } else { 3 + d.below_usize(6) };
+    let mut seq: Vec<(usize, Stimulus)> = vec![];
+    for i in 0..len {
+        // repeat an earlier top half of the time
+        let ti = if i > 0 && d.bool() { seq[d.below_usize(i)].0 } else { d.below_usize(n_tops) };
+        let stim = top_stimulus(d, &tops[ti]);
+        seq.push((ti, stim));
+    }
+    if std::env::var("C34_DUMP").is_ok() {
+        println!("{text}");
+    }
+    let a = match Analyzed::new(&text) {
+        Ok(a) => a,
+        Err(r) => {
+            let code = r.errors.first().map(|e| format!("{}: {}", e.0, e.1.lines().next().unwrap_or(""))).unwrap_or_default();
+            return Outcome::skip(format!("generated library rejected by the analyzer ({}:{})", r.stage, norm_err(&code)));
+        }
+    };
+    let mut classes = lib.classes.clone();
+    // sharing statistics
+    let used: Vec<&DutParams> = tops.iter().flat_map(|t| std::iter::once(&t.main).chain(t.second.iter())).collect();
+    let mut same_mod_diff_params = false;
+    let mut same_params = false;
+    for (i, p) in used.iter().enumerate() {
+        for q in &used[i + 1..] {
+            if p.dut == q.dut && p != q {
+                same_mod_diff_params = true;
+            }
+            if p == q {
+                same_params = true;
+            }
+        }
+    }
+    if same_mod_diff_params {
+        classes.push("share:same-dut-different-params".into());
+    }
+    if same_params {
+        classes.push("share:same-dut-same-params".into());
+    }
+    for t in &tops {
+        if t.wrap {
+            classes.push("layout:wrapper".into());
+        }
+        if t.pre_leaf.is_some() {
+            classes.push("layout:leaf-before-dut".into());
+        }
+        if t.second.is_some() {
+            classes.push("layout:two-duts".into());
+        }
+        if t.pad.is_some() {
+            classes.push("layout:pad".into());
+        }
+    }
+    classes.sort();
+    classes.dedup();
+    let names: Vec<String> = tops.iter().map(|t| t.name.clone()).collect();
+    run_history(&a, &text, &names, &seq, cfg_name, &cfg, classes, same_mod_diff_params)
+}
+
+fn api_designs_case(d: &mut Draw, cc_ok: bool) -> Outcome {
+    let mut gc = GenCfg::default();
+    gc.display = d.chance(1, 3);
+    gc.max_width = 160;
+    let g = gen_design(d, &gc);
+    let text = print_design(&g.design);
+    let (cfg_name, cfg) = pick_config(d, cc_ok);
+    let len = if cfg_name == "cc" { 2 } else { 2 + d.below_usize(3) };
+    let mut seq = vec![];
+    for _ in 0..len {
+        let cycles = 3 + d.below(8) as usize;
+        seq.push((0usize, gen_stimulus(d, &g.design, cycles)));
+    }
+    let a = match Analyzed::new(&text) {
+        Ok(a) => a,
+        Err(r) => {
+            let code = r.errors.first().map(|e| e.0.clone()).unwrap_or_default();
+            return Outcome::skip(format!("generated design rejected by the analyzer ({}:{code})", r.stage));
+        }
+    };
+    let mut classes: Vec<String> = vec![];
+    if g.design.top().has_ff() {
+        classes.push("design:sequential".into());
+    }
+    if g.design.modules.len() > 1 {
+        classes.push("design:hierarchy".into());
+    }
+    let nt = g.design.top().has_ff() || g.design.modules.len() > 1;
+    run_history(&a, &text, &["Top".to_string()], &seq, cfg_name, &cfg, classes, nt)
+}
+
+/// Replay of a recorded in-process history.
+fn replay_api(p: &Value) -> Outcome {
+    let text = p["veryl"].as_str().unwrap_or("");
+    let cfg_name = p["config"].as_str().unwrap_or("jit");
+    let Some((name, cfg)) = api_configs().into_iter().find(|(n, _)| *n == cfg_name) else {
+        return Outcome::skip("unknown config in the recorded history");
+    };
+    let tops: Vec<String> = p["tops"].as_array().map(|a| a.iter().filter_map(|x| x.as_str().map(|s| s.to_string())).collect()).unwrap_or_default();
+    let mut seq = vec![];
+    for h in p["history"].as_array().cloned().unwrap_or_default() {
+        let Some(ti) = tops.iter().position(|t| Some(t.as_str()) == h["top"].as_str()) else {
+            return Outcome::skip("recorded history names an unknown top");
+        };
+        seq.push((ti, stim_from(&h["stimulus"])));
+    }
+    let a = match Analyzed::new(text) {
+        Ok(a) => a,
+        Err(r) => return Outcome::skip(format!("recorded text rejected by the analyzer ({r})")),
+    };
+    run_history(&a, text, &tops, &seq, name, &cfg, vec!["recorded".into()], true)
+}
+
+// -------------------------------------------------------------------- CLI
+
+const PROJECT: &str = "c34p";
+
+fn veryl_toml() -> String {
+    format!("[project]\nname    = \"{PROJECT}\"\nversion = \"0.1.0\"\n\n[build]\nclock_type  = \"posedge\"\nreset_type  = \"async_low\"\nsources     = [\"src\"]\nexclude_std = true\n")
+}
+
+#[derive(Clone, Debug, PartialEq, Eq)]
+struct TestRes {
+    status: String,
+    message: Option<String>,
+    output: Option<String>,
+}
+
+#[derive(Clone, Debug)]
+struct Report {
+    order: Vec<String>,
+    tests: BTreeMap<String, TestRes>,
+}
+
+fn parse_report(stdout: &str) -> Result<Report, String> {
+    let start = stdout.find("{\n").or_else(|| stdout.find('{')).ok_or("no JSON report on stdout")?;
+    let v: Value = serde_json::from_str(&stdout[start..]).map_err(|e| format!("report is not JSON: {e}"))?;
+    let arr = v.get("tests").and_then(|t| t.as_array()).ok_or("report has no tests array")?;
+    let mut order = Vec::new();
+    let mut tests = BTreeMap::new();
+    for t in arr {
+        let name = t.get("name").and_then(|n| n.as_str()).ok_or("test without name")?.to_string();
+        let res = TestRes {
+            status: t.get("status").and_then(|n| n.as_str()).unwrap_or("").to_string(),
+            message: t.get("message").and_then(|n| n.as_str()).map(|s| s.to_string()),
+            output: t.get("output").and_then(|n| n.as_str()).map(|s| s.to_string()),
+        };
+        order.push(name.clone());
+        if tests.insert(name.clone(), res).is_some() {
+            return Err(format!("test {name} reported twice"));
+        }
+    }
+    Ok(Report { order, tests })
+}
+
+struct Workspace {
+    _scratch: Scratch,
+    proj: PathBuf,
+    xdg: PathBuf,
+    backend: &'static str,
+    four_state: bool,
+    cpu: u32,
+}
+
+#[derive(Clone, Debug)]
+struct RunCfg {
+    reuse: bool,
+    /// forced dispatch order (names, first = first dispatched); None = alphabetical (no history)
+    order: Option<Vec<String>>,
+    /// only this test (`--test NAME`)
+    only: Option<String>,
+    label: String,
+}
+
+impl Workspace {
+    fn command_line(&self, c: &RunCfg) -> String {
+        let mut s = String::new();
+        if !c.reuse {
+            s.push_str("VERYL_DUT_REUSE=0 ");
+        }
+        if self.backend == "cc" {
+            s.push_str("VERYL_AOT_C_ASYNC=0 ");
+        }
+        s.push_str(&format!("taskset -c {} veryl test --format json --seed 1 --backend {}", self.cpu, self.backend));
+        if self.four_state {
+            s.push_str(" --4state");
+        }
+        if let Some(t) = &c.only {
+            s.push_str(&format!(" --test {t}"));
+        }
+        s
+    }
+
+    fn run(&self, c: &RunCfg) -> Result<Report, String> {
+        let tp = self.proj.join(".build/test_timings");
+        match &c.order {
+            None => {
+                let _ = std::fs::remove_file(&tp);
+            }
+            Some(o) => {
+                let n = o.len();
+                let text: Vec<String> = o.iter().enumerate().map(|(i, name)| format!("{name} {:.6}", 0.001 * (n - i) as f64 + 0.0005)).collect();
+                write_file(&tp, &text.join("\n"));
+            }
+        }
+        let bin = repo_bin("veryl").to_string_lossy().into_owned();
+        let cpu = self.cpu.to_string();
+        let mut args: Vec<&str> = vec!["-c", &cpu, &bin, "test", "--format", "json", "--seed", "1", "--backend", self.backend];
+        if self.four_state {
+            args.push("--4state");
+        }
+        if let Some(t) = &c.only {
+            args.push("--test");
+            args.push(t);
+        }
+        let xdg = self.xdg.to_string_lossy().into_owned();
+        let mut env = vec![("XDG_CACHE_HOME", xdg.as_str()), ("NO_GRAPHICS", "1"), ("NO_COLOR", "1"), ("RUST_BACKTRACE", "0")];
+        // the C backend only with a synchronous compile (the swap point of
+        // the asynchronous one is C33's subject and depends on timing)
+        if self.backend == "cc" {
+            env.push(("VERYL_AOT_C_ASYNC", "0"));
+        }
+        env.push(("VERYL_DUT_REUSE", if c.reuse { "1" } else { "0" }));
+        let o = run_cmd("taskset", &args, &self.proj, &env, Duration::from_secs(400));
+        if o.timed_out {
+            return Err("timeout".into());
+        }
+        parse_report(&o.stdout).map_err(|e| {
+            let tail: String = o.stderr.lines().filter(|l| !l.contains("[INFO")).take(12).collect::<Vec<_>>().join("\n");
+            format!("{e}; exit={:?} signal={:?}\n{tail}", o.code, o.signal)
+        })
+    }
+}
+
+fn permutation(d: &mut Draw, names: &[String]) -> Vec<String> {
+    let mut v = names.to_vec();
+    if d.exhausted() {
+        v.reverse();
+        return v;
+    }
+    for i in (1..v.len()).rev() {
+        let j = d.below(i as u32 + 1) as usize;
+        v.swap(i, j);
+    }
+    v
+}
+
+fn diff_reports(base: &Report, other: &Report, names: &[String]) -> Option<(String, String)> {
+    for n in names {
+        match (base.tests.get(n), other.tests.get(n)) {
+            (Some(a), Some(b)) => {
+                if a.status != b.status {
+                    return Some((n.clone(), format!("status {:?} vs {:?} (message {:?} vs {:?})", a.status, b.status, a.message, b.message)));
+                }
+                if a.output != b.output {
+                    let (ao, bo) = (a.output.clone().unwrap_or_default(), b.output.clone().unwrap_or_default());
+                    let (la, lb): (Vec<&str>, Vec<&str>) = (ao.lines().collect(), bo.lines().collect());
+                    let i = la.iter().zip(&lb).position(|(x, y)| x != y).unwrap_or(la.len().min(lb.len()));
+                    return Some((n.clone(), format!("output line {i}: {:?} vs {:?}", la.get(i).copied().unwrap_or("<end>"), lb.get(i).copied().unwrap_or("<end>"))));
+                }
+                if a.message != b.message {
+                    return Some((n.clone(), format!("message {:?} vs {:?}", a.message, b.message)));
+                }
+            }
+            (a, b) => return Some((n.clone(), format!("reported: {} vs {}", a.is_some(), b.is_some()))),
+        }
+    }
+    None
+}
+
+struct CliProject {
+    files: Vec<(String, String)>,
+    names: Vec<String>,
+    classes: Vec<String>,
+    nontrivial: bool,
+    backend: &'static str,
+    four_state: bool,
+}
+
+const STEMS: &[&str] = &["a", "zz", "m", "b", "k", "x9", "q", "top", "e", "w", "n0", "cnt"];
+
+fn gen_cli_project(d: &mut Draw, cc_ok: bool) -> CliProject {
+    let lib = gen_library(d);
+    let pool = gen_param_pool(d, &lib);
+    let n = 3 + d.below_usize(6);
+    let mut benches = vec![];
+    let mut names = vec![];
+    for i in 0..n {
+        // names: unique two-digit tag in the middle so that no name contains another
+        let name = format!("T{}_{i:02}x", STEMS[d.below_usize(STEMS.len())]);
+        names.push(name.clone());
+        let top = gen_top(d, &lib, &pool, name);
+        benches.push(gen_bench(d, top));
+    }
+    // make sure some tests share a DUT with the same parameters and some with different ones
+    if d.chance(2, 3) && n >= 2 {
+        let src = benches[0].top.main.clone();
+        let k = 1 + d.below_usize(n - 1);
+        benches[k].top.main = src;
+        benches[k].top.wrap = benches[k].top.wrap && lib.wrappers[benches[k].top.main.dut];
+    }
+    let mut classes = lib.classes.clone();
+    let used: Vec<&DutParams> = benches.iter().flat_map(|b| std::iter::once(&b.top.main).chain(b.top.second.iter())).collect();
+    let mut same_mod_diff_params = false;
+    let mut same_params_big = false;
+    let mut same_params = false;
+    for (i, p) in used.iter().enumerate() {
+        for q in &used[i + 1..] {
+            if p.dut == q.dut && p != q {
+                same_mod_diff_params = true;
+            }
+            if p == q {
+                same_params = true;
+                if p.big() {
+                    same_params_big = true;
+                }
+            }
+        }
+    }
+    if same_mod_diff_params {
+        classes.push("share:same-dut-different-params".into());
+    }
+    if same_params {
+        classes.push("share:same-dut-same-params".into());
+    }
+    if same_params_big {
+        classes.push("share:same-dut-same-params-state>=256B(reuse-boundary)".into());
+    }
+    for b in &benches {
+        let t = &b.top;
+        if t.wrap {
+            classes.push("layout:wrapper".into());
+        }
+        if t.pre_leaf.is_some() {
+            classes.push("layout:leaf-before-dut".into());
+        }
+        if t.second.is_some() {
+            classes.push("layout:two-duts".into());
+        }
+        if t.pad.is_some() {
+            classes.push("layout:pad".into());
+        }
+        if b.assert_bit.is_some() {
+            classes.push("bench:data-dependent-assert".into());
+        }
+    }
+    classes.sort();
+    classes.dedup();
+    let backend = match d.weighted(&[5, 3, if cc_ok { 1 } else { 0 }]) {
+        0 => "cranelift",
+        1 => "interpret",
+        _ => "cc",
+    };
+    let four_state = backend != "cc" && d.chance(1, 6);
+    let split = d.bool();
+    let mut files = vec![("Veryl.toml".to_string(), veryl_toml())];
+    if split {
+        files.push(("src/lib.veryl".into(), lib.text.clone()));
+        for b in &benches {
+            files.push((format!("src/{}.veryl", b.top.name.to_lowercase()), print_bench(b)));
+        }
+    } else {
+        let mut all = lib.text.clone();
+        for b in &benches {
+            all.push_str(&print_bench(b));
+        }
+        files.push(("src/all.veryl".into(), all));
+    }
+    CliProject {
+        files,
+        names,
+        classes,
+        nontrivial: same_mod_diff_params,
+        backend,
+        four_state,
+    }
+}
+
+fn files_json(files: &[(String, String)]) -> Value {
+    Value::Object(files.iter().map(|(k, v)| (k.clone(), json!(v))).collect())
+}
+
+fn cli_evaluate(d: &mut Draw, p: &CliProject, alone: bool) -> Outcome {
+    let scratch = Scratch::new("c34");
+    let proj = scratch.join(PROJECT);
+    let xdg = scratch.join("xdg");
+    std::fs::create_dir_all(&xdg).expect("mkdir xdg");
+    for (rel, text) in &p.files {
+        write_file(&proj.join(rel), text);
+    }
+    let total = std::thread::available_parallelism().map(|n| n.get()).unwrap_or(1) as u32;
+    let ws = Workspace {
+        _scratch: scratch,
+        proj,
+        xdg,
+        backend: p.backend,
+        four_state: p.four_state,
+        cpu: d.below(total),
+    };
+    let mut sorted = p.names.clone();
+    sorted.sort();
+    let forced = permutation(d, &sorted);
+    let base_cfg = RunCfg { reuse: false, order: None, only: None, label: "no-reuse".into() };
+    let base = match ws.run(&base_cfg) {
+        Ok(r) => r,
+        Err(e) => return Outcome::skip(format!("no report from the run without reuse ({})", norm_err(&e))),
+    };
+    if base.tests.len() != p.names.len() {
+        return Outcome::skip("the run without reuse did not report every test");
+    }
+    if base.tests.values().any(|t| t.status == "error") {
+        let m = base.tests.values().find(|t| t.status == "error").and_then(|t| t.message.clone()).unwrap_or_default();
+        return Outcome::skip(format!("a generated bench does not elaborate / run without reuse ({})", norm_err(&m)));
+    }
+    let mut runs: Vec<RunCfg> = vec![
+        RunCfg { reuse: true, order: None, only: None, label: "reuse/alphabetical".into() },
+        RunCfg { reuse: true, order: Some(forced.clone()), only: None, label: "reuse/forced-order".into() },
+    ];
+    if alone {
+        for n in &sorted {
+            runs.push(RunCfg { reuse: true, order: None, only: Some(n.clone()), label: format!("alone:{n}") });
+        }
+    }
+    let input = |detail: Value| json!({"files": files_json(&p.files), "backend": p.backend, "four_state": p.four_state, "tests": p.names, "forced_order": forced, "detail": detail});
+    for rc in &runs {
+        let names: Vec<String> = match &rc.only {
+            Some(n) => vec![n.clone()],
+            None => sorted.clone(),
+        };
+        let rep = match ws.run(rc) {
+            Ok(r) => r,
+            Err(e) => {
+                // the run with reuse produced no report while the one without did: re-run to rule out a timeout
+                match ws.run(rc) {
+                    Ok(r) => r,
+                    Err(e2) if e == "timeout" || e2 == "timeout" => return Outcome::skip("timeout of a reuse run"),
+                    Err(e2) => {
+                        return Outcome::fail(
+                            format!("no-report-with-reuse:{}", norm_err(&e2)),
+                            format!("`{}` gives no report although the run without reuse does: {e2}", ws.command_line(rc)),
+                            input(json!({"run": rc.label})),
+                        );
+                    }
+                }
+            }
+        };
+        if let Some((test, what)) = diff_reports(&base, &rep, &names) {
+            // soundness: both runs again
+            let base2 = ws.run(&base_cfg);
+            let rep2 = ws.run(rc);
+            let stable = match (&base2, &rep2) {
+                (Ok(b2), Ok(r2)) => diff_reports(&base, b2, &sorted).is_none() && diff_reports(&rep, r2, &names).is_none(),
+                _ => false,
+            };
+            let kind = if rc.only.is_some() { "alone" } else { "suite" };
+            let what_kind = if what.starts_with("status") { "status" } else if what.starts_with("output") { "output" } else { "report" };
+            if !stable {
+                return Outcome::fail(
+                    format!("unstable-cli-difference/{kind}"),
+                    format!("test {test}: {what} between `{}` and `{}`, but a re-run of the two gave other results", ws.command_line(&base_cfg), ws.command_line(rc)),
+                    input(json!({"run": rc.label, "test": test, "diff": what})),
+                );
+            }
+            let pos = rep.order.iter().position(|x| *x == test).unwrap_or(0);
+            return Outcome::fail(
+                format!("dut-reuse-changes-{what_kind}/{kind}/{}", p.backend),
+                format!(
+                    "test {test} (dispatched {pos}. of {:?}): {what}\n  reference: `{}`\n  differs:   `{}`\n  without reuse: {:?}\n  with reuse:    {:?}",
+                    rep.order,
+                    ws.command_line(&base_cfg),
+                    ws.command_line(rc),
+                    base.tests.get(&test),
+                    rep.tests.get(&test)
+                ),
+                input(json!({"run": rc.label, "test": test, "diff": what, "order": rep.order})),
+            );
+        }
+    }
+    let mut classes = p.classes.clone();
+    classes.push(format!("backend:{}{}", p.backend, if p.four_state { "+4state" } else { "" }));
+    if alone {
+        classes.push("runs:each-test-alone".into());
+    }
+    if base.tests.values().any(|t| t.status == "fail") {
+        classes.push("verdict:some-test-fails".into());
+    }
+    if forced != sorted {
+        classes.push("order:forced-differs-from-alphabetical".into());
+    }
+    let all_text: String = p.files.iter().map(|(k, v)| format!("// ---- {k}\n{v}")).collect();
+    Outcome::pass(hash_str(&all_text), p.nontrivial, classes, format!("{all_text}// backend {} forced order {forced:?}", p.backend))
+}
+
+fn cli_case(d: &mut Draw, cc_ok: bool) -> Outcome {
+    let p = gen_cli_project(d, cc_ok);
+    let alone = d.chance(1, 3);
+    cli_evaluate(d, &p, alone)
+}
+
+fn replay_cli(v: &Value) -> Outcome {
+    let files: Vec<(String, String)> = v["files"].as_object().map(|m| m.iter().map(|(k, x)| (k.clone(), x.as_str().unwrap_or("").to_string())).collect()).unwrap_or_default();
+    let names: Vec<String> = v["tests"].as_array().map(|a| a.iter().filter_map(|x| x.as_str().map(|s| s.to_string())).collect()).unwrap_or_default();
+    let backend = match v["backend"].as_str() {
+        Some("interpret") => "interpret",
+        Some("cc") => "cc",
+        _ => "cranelift",
+    };
+    let p = CliProject {
+        files,
+        names,
+        classes: vec!["recorded".into()],
+        nontrivial: true,
+        backend,
+        four_state: v["four_state"].as_bool().unwrap_or(false),
+    };
+    // the forced order of the record: encode as a permutation is not needed —
+    // an exhausted Draw reverses the alphabetical order; the alphabetical run
+    // and the runs alone are made as well
+    let mut d = Draw::new(vec![]);
+    cli_evaluate(&mut d, &p, true)
+}
+
+pub fn run(ctx: &Ctx) {
+    let cc_ok = veryl_simulator::backend::aot_c::cc_available();
+    ctx.assume("`taskset -c <one cpu>` makes std::thread::available_parallelism = 1 in the veryl process, hence one worker and a sequential history of tests (cmd_test.rs: num_threads = min(available_parallelism, tests))");
+    ctx.assume("the reference of the CLI part is the same suite run with VERYL_DUT_REUSE=0 (every test converted from scratch); with --backend cc the compile is synchronous (VERYL_AOT_C_ASYNC=0) — the asynchronous swap is C33's subject");
+    ctx.assume("in process the cache is used the way cmd_test.rs uses it: one configuration per cache, build / run / drop one test after the other (DESIGN.md 6a: no dut_reuse outside the CLI)");
+    let only = std::env::var("C34_ONLY").unwrap_or_default();
+    ctx.run_payloads("api-recorded", replay_api);
+    ctx.run_payloads("cli-recorded", replay_cli);
+    if only.is_empty() || only == "api" {
+        let n = std::env::var("C34_API_CASES").ok().and_then(|s| s.parse().ok()).unwrap_or(ctx.scale(300, 8000));
+        ctx.run("api-tops", CaseCfg::cases(n).choices(6000).timeout_s(900).shrink_iters(60), |d| api_tops_case(d, cc_ok));
+        let n2 = std::env::var("C34_API_CASES").ok().and_then(|s| s.parse().ok()).unwrap_or(ctx.scale(200, 6000));
+        ctx.run("api-designs", CaseCfg::cases(n2).choices(8000).timeout_s(900).shrink_iters(60), |d| api_designs_case(d, cc_ok));
+    }
+    if only.is_empty() || only == "cli" {
+        let n = std::env::var("C34_CLI_CASES").ok().and_then(|s| s.parse().ok()).unwrap_or(ctx.scale(40, 1500));
+        let total = std::thread::available_parallelism().map(|n| n.get()).unwrap_or(1);
+        ctx.run("cli", CaseCfg::cases(n).choices(6000).threads(total.min(12)).shrink_iters(6).timeout_s(3000), |d| cli_case(d, cc_ok));
+    }
+    ctx.finish(
+        "exploration",
+        "api-tops: generated library (1-2 leaf modules with params W,K; 1-2 DUT modules with params W,D,M holding an array of state and instantiating the leaves with different overrides; wrappers) + 2-5 plain tops (DUT parameter sets drawn from a shared pool so that tops share DUTs with equal and with different parameters; layouts: wrapper, leaf before the DUT, two DUTs in either order, pad variable) x histories of 3-8 (top, stimulus) elements with repeats, one engine configuration per history; api-designs: vdesign designs instantiated 2-4 times through one cache entry; cli: projects of 3-8 native #[test] benches over such a library, suite runs on one CPU with reuse (alphabetical and forced dispatch order) and each test alone (1/3) versus the suite with VERYL_DUT_REUSE=0; non-trivial = at least two tops/tests share a DUT module with different parameters (api: and the history has a cache hit); distinct by text + history",
+    );
 }
